@@ -417,7 +417,7 @@ func init() {
 		}
 	}
 	registerFlow("C11", &flowDef{
-		rule:   "unit speed (through the -tags verif wrappers around the real ForkId.ForkIdString, encodeJournalName, Node.parseRunFilename, Node.getFork, NewMetadataRunWithJournalPath/UpdateJournal naming): random nestings (1-3 dimensions; map over 1-6 adversarial keys incl. '.', '/', '%', '%2E', spaces, non-ASCII, 'fork0', 200-byte keys, random Unicode; array lengths at decimal-width boundaries 9/10/11, 99/100/101, 999/1000/1001; static and run-time sized): all forks of a call must get pairwise distinct directory and journal names; every journal file name built for (fork, split|join|chunk i, attempt, metadata file) must parse back and be routed to exactly that fork / chunk / attempt / file. End to end: pgen programs whose map calls use adversarial key pools (literal and probe-produced), incl. mixed array x map nestings, run by the real mrp: must complete, no dataflow / exactly-once finding, no 'Journal update for unknown' warning. distinct = distinct nesting + key set; non-trivial = at least 2 forks.",
+		rule:   "unit speed (through the -tags verif wrappers around the real ForkId.ForkIdString, encodeJournalName, Node.parseRunFilename, Node.getFork, NewMetadataRunWithJournalPath/UpdateJournal naming): random nestings (1-3 dimensions; map over 1-6 adversarial keys incl. '.', '/', '%', '%2E', spaces, non-ASCII, 'fork0', 200-byte keys, random Unicode; array lengths at decimal-width boundaries 9/10/11, 99/100/101, 999/1000/1001; static and run-time sized): all forks of a call must get pairwise distinct directory and journal names; every journal file name built for (fork, split|join|chunk i, attempt, metadata file) must parse back and be routed to exactly that fork / chunk / attempt / file. End to end: pgen programs whose map calls use adversarial key pools (literal and probe-produced), incl. mixed array x map nestings, run by the real mrp: must complete, no dataflow / exactly-once finding, no 'Journal update for unknown' warning; in every run the journal-routing monitor reads the hook trace (refresh:route: journal file name as found on disk + journal base name, prefix and uniquifier of the metadata object that received it) and requires each processed file to carry the name the receiving object's own job writes, and no file to be dropped for want of an owner; a third of the plain cases are nested map calls with run-time sized levels (dataflow skeletons 12, 14), whose forks are created out of name order. distinct = distinct nesting + key set; non-trivial = at least 2 forks.",
 		assume: []string{"keys longer than 255 bytes once encoded are excluded (documented file-name restriction)"},
 		cases: func(c *vf.Ctx) []*flowCase {
 			n := c.Pick(36, 800)
@@ -470,6 +470,15 @@ func init() {
 					fc.AutoRetry = 12 // one retry per wave of first attempts
 					fc.Rules = []pgen.Rule{{Phase: "main", Attempt: 1, Fail: []string{"kill9", "kill_mrjob"}[(i/4)%2]}}
 					fc.Tweak = func(s *pgen.Spec) { s.LenChoices = []int{1, 2, 3} }
+				}
+				if fc := cases[len(cases)-1]; fc.Template == 0 && len(fc.Rules) == 0 && i%3 == 1 {
+					// nested map calls with run-time sized levels (dataflow skeletons
+					// 12 and 14): forks made at run time are appended to the node's
+					// fork list in the order they are discovered, which is not the
+					// order of their names - the journal-routing monitor then sees
+					// whether every notification still reaches the fork that wrote it
+					fc.Template = []int{13, 15}[(i/3)%2]
+					fc.DelayMs = 60
 				}
 			}
 			return cases
